@@ -18,6 +18,10 @@ struct Ch {
     prov: Option<(usize, usize)>,
     /// deleted text directly follows this character (its range then extends over the deletion)
     del_after: bool,
+    /// ghost bookkeeping compared with the model's (`Model/EditGhost.lean`): original byte offset of a character that no
+    /// replacement ever wrote (never overwritten, unlike `prov`), and "has been the first character of a batch result"
+    org: Option<usize>,
+    lead: bool,
 }
 
 const REPL: &[&str] = &["", "", "x", "é", "あ", "𠮷", "ab", "あい", "x𠮷é", "かきくけこ"];
@@ -49,7 +53,7 @@ fn apply_naive(cur: &[Ch], batch: &[(usize, usize, String)]) -> Vec<Ch> {
     for (s, e, w) in batch {
         out.extend_from_slice(&cur[p..*s]);
         for c in w.chars() {
-            out.push(Ch { c, prov: None, del_after: false });
+            out.push(Ch { c, prov: None, del_after: false, org: None, lead: false });
         }
         if w.is_empty() && s < e {
             if let Some(l) = out.last_mut() { l.del_after = true; }
@@ -61,6 +65,8 @@ fn apply_naive(cur: &[Ch], batch: &[(usize, usize, String)]) -> Vec<Ch> {
     // character, whose image then starts at 0 for good (also when later batches insert text before it)
     if let Some(first) = out.first_mut() {
         if let Some((_, e)) = first.prov { first.prov = Some((0, e)); }
+        // `commit` does not call `resolve_edits` for an empty batch
+        if !batch.is_empty() { first.lead = true; }
     }
     out
 }
@@ -84,9 +90,9 @@ pub fn show_opt(v: &[usize]) -> String {
 }
 
 /// runs one edit case on the real InputBuffer; returns (answer, oracle failure)
-pub fn run_edit_case(dic: &JapaneseDictionary, orig: &str, batches: &[Vec<Ed>], expect: Option<&[Ch0]>) -> (String, Option<(String, String)>) {
+pub fn run_edit_case(dic: &JapaneseDictionary, orig: &str, batches: &[Vec<Ed>], expect: Option<&[Ch0]>) -> (String, Option<(String, String)>, Vec<usize>) {
     let _ = expect;
-    let res = catch(|| -> Result<(String, Option<(String, String)>), String> {
+    let res = catch(|| -> Result<(String, Option<(String, String)>, Vec<usize>), String> {
         let mut buf = InputBuffer::new();
         buf.reset().push_str(orig);
         if buf.start_build().is_err() {
@@ -149,11 +155,23 @@ pub fn run_edit_case(dic: &JapaneseDictionary, orig: &str, batches: &[Vec<Ed>], 
                 }
             }
         }
-        Ok((ans, fail.map(|(k, w)| (k.to_string(), w))))
+        // the offset map as the PUBLIC accessors report it: `get_original_index` at every character boundary of the rewritten
+        // text (it asserts the boundary), the table entry elsewhere; `to_orig_byte_idx` of every character must be the same value
+        let goi: Vec<usize> = (0..=cur.len()).map(|i| if cur.is_char_boundary(i) { buf.get_original_index(i) } else { m[i] }).collect();
+        if fail.is_none() {
+            for ci in 0..=nch {
+                let b = t.mod_c2b[ci];
+                if buf.to_orig_byte_idx(ci) != goi[b] || goi[b] != m[b] {
+                    fail = Some(("api", format!("character {} (byte {}): to_orig_byte_idx = {}, get_original_index = {}, m2o = {}", ci, b, buf.to_orig_byte_idx(ci), goi[b], m[b])));
+                    break;
+                }
+            }
+        }
+        Ok((ans, fail.map(|(k, w)| (k.to_string(), w)), goi))
     });
     match res {
-        Err(p) => (format!("PANIC"), Some(("panic".into(), format!("panic: {}", p)))),
-        Ok(Err(e)) => (format!("err:{}", e), None),
+        Err(p) => (format!("PANIC"), Some(("panic".into(), format!("panic: {}", p))), vec![]),
+        Ok(Err(e)) => (format!("err:{}", e), None, vec![]),
         Ok(Ok(x)) => x,
     }
 }
@@ -273,7 +291,7 @@ boundaries of the current text and leaving it non-empty; non-trivial = at least 
             let mut v = vec![];
             let mut off = 0;
             for c in orig.chars() {
-                v.push(Ch { c, prov: Some((off, off + c.len_utf8())), del_after: false });
+                v.push(Ch { c, prov: Some((off, off + c.len_utf8())), del_after: false, org: Some(off), lead: false });
                 off += c.len_utf8();
             }
             v
@@ -307,7 +325,30 @@ boundaries of the current text and leaving it non-empty; non-trivial = at least 
             },
             crate::c03::commit_variant()
         );
-        let (ans, fail) = run_edit_case(&dic, &orig, &batches, None);
+        let (ans, fail, goi) = run_edit_case(&dic, &orig, &batches, None);
+        // ghost tokens (model: `EditG.ghostTokens`): provenance / attached deletion / first-entry flag per byte of the rewritten
+        // text from the naive bookkeeping above (never looks at the buffer), and the image of every unreplaced byte as the REAL
+        // buffer reports it (`get_original_index` on boundaries) - the model PREDICTS that image from its ghost state alone
+        let ans = if ans.starts_with("ok") && goi.len() == cur.iter().map(|c| c.c.len_utf8()).sum::<usize>() + 1 {
+            let (mut prov, mut del, mut lead, mut uimg) = (vec![], String::new(), String::new(), vec![]);
+            let mut off = 0;
+            for c in cur.iter() {
+                let w = c.c.len_utf8();
+                for j in 0..w {
+                    match c.org {
+                        Some(k) => { prov.push((k + j).to_string()); uimg.push(format!("{}:{}:{}", off + j, goi[off + j], goi[off + j + 1])); }
+                        None => prov.push("r".to_string()),
+                    }
+                    del.push(if j + 1 == w && c.del_after { '1' } else { '0' });
+                    lead.push(if j == 0 && c.lead { '1' } else { '0' });
+                }
+                off += w;
+            }
+            run.bump_by("ghost:unreplaced-bytes", uimg.len() as u64);
+            run.bump_by("ghost:bytes-with-attached-deletion", del.chars().filter(|c| *c == '1').count() as u64);
+            run.bump_by("ghost:first-entry-flags", lead.chars().filter(|c| *c == '1').count() as u64);
+            format!("{} prov={} del={} lead={} uimg={}", ans, prov.join(","), del, lead, uimg.join(";"))
+        } else { ans };
         run.bump(&format!("batches:{}", batches.len()));
         run.bump(&format!("outcome:{}", ans.split(' ').next().unwrap_or("")));
         for (bi, b) in batches.iter().enumerate() { for (i, e) in b.iter().enumerate() { run.bump(&format!("edit-api:{}", api_name(((i + bi + orig.len()) % 4) as u8, e))); } }
@@ -331,7 +372,15 @@ boundaries of the current text and leaving it non-empty; non-trivial = at least 
                 if let Some((s, e)) = c.prov {
                     let next = off + c.c.len_utf8();
                     let start_ok = m2o[off] == s;
-                    let end_ok = if c.del_after { m2o[next] >= e } else { m2o[next] == e };
+                    // deleted text directly after the character attaches to it: the image then ends where the deletion run ends -
+                    // exactly at the next character's own start when that one is unreplaced too, at the end of the original
+                    // when the character is the last one, somewhere at or after its own end otherwise
+                    let end_ok = if !c.del_after { m2o[next] == e } else {
+                        match cur.get(i + 1) {
+                            None => m2o[next] == orig.len(),
+                            Some(n) => match n.org { Some(k) => m2o[next] == k && k >= e, None => m2o[next] >= e },
+                        }
+                    };
                     if !start_ok || !end_ok {
                         run.fail(idx, "c08:unreplaced", &format!("unreplaced character {:?} (original bytes {}..{}) is mapped to {}..{}", c.c, s, e, m2o[off], m2o[next]));
                         break;
@@ -379,7 +428,7 @@ fn run_acc(run: &mut Run, first_idx: usize, count: usize) {
         let mut cur: Vec<Ch> = {
             let mut v = vec![];
             let mut off = 0;
-            for c in orig.chars() { v.push(Ch { c, prov: Some((off, off + c.len_utf8())), del_after: false }); off += c.len_utf8(); }
+            for c in orig.chars() { v.push(Ch { c, prov: Some((off, off + c.len_utf8())), del_after: false, org: Some(off), lead: false }); off += c.len_utf8(); }
             v
         };
         let mut batches: Vec<Vec<Ed>> = vec![];
@@ -625,6 +674,16 @@ fn run_python(run: &mut Run, first_idx: usize, count: usize) {
                 Some(pre) => {
                     // independent of any analysis: the code-point slices must tile the text
                     let cat: String = pre.iter().map(|x| x.as_str().unwrap_or("\u{0}?")).collect();
+                    // OUTSIDE the property's quantifier ("replacements that leave the text non-empty"): the input-text plugins deleted
+                    // the whole text (every character on the ignore list) - no morpheme, no slice, nothing to tile with; the
+                    // pre-tokenizer must then return no slice at all (thorough tier: "〜～ー" in a world that ignores all three)
+                    if a.tables.modified.is_empty() && !text.is_empty() {
+                        run.bump("python:text-rewritten-to-empty(outside-the-quantifier)");
+                        if !pre.is_empty() {
+                            run.fail(idx, "c08:py:pretok", &format!("pre-tokenizer slices of {:?} (rewritten to the empty text) = {}", text, serde_json::Value::Array(pre.clone())));
+                        }
+                        continue;
+                    }
                     if cat != *text {
                         run.fail(idx, "c08:py:pretok-tiling", &format!("pre-tokenizer slices of {:?} (mode {:?}) = {} do not concatenate to the text", text, mode,
                             serde_json::Value::Array(pre.clone()).to_string().chars().take(300).collect::<String>()));
